@@ -448,7 +448,64 @@ def check_query_unmodified(ctx):
     ctx.floor("R2.5", "model predict functions", n, 3)
 
 
+# ------------------------------------------------------------------------------------------------ R2.6
+def check_added_arm_model(ctx):
+    """The model of an arm that arrives through add_arm is built with the bandit's own hyper-parameters: every
+    constructor argument that the model class stores equals what the models built by the constructor hold."""
+    from .common import facts
+    from ..facts import walk
+    F = facts(ctx)
+    prog = ctx.prog
+    n = 0
+    for c in F.configs(np_=[None], lp=["LinGreedy", "LinTS", "LinUCB"]):
+        w = F.world(c)
+        root = F.trace(c, "add_arm")
+        F.focus(c, root)
+        ctx.analysed["configs"].add(c.name)
+        h0 = w.init_heap
+        imp0 = h0.objs[next(iter(h0.objs[w.mab_oid].fields["_imp"].refs))]
+        models0 = []
+        for r in imp0.fields["arm_to_model"].refs:
+            d = h0.objs[r]
+            if d.elem is not None:
+                models0.extend(h0.objs[x] for x in d.elem.refs if x in h0.objs)
+        if not models0:
+            ctx.undecided("R2.6", "no per-arm model in the constructed %s bandit" % c.lp, construct=c.name,
+                          where="_Linear.__init__")
+            continue
+        ref = models0[0]
+        for ev, anc in walk(root):
+            if ev.kind != "call" or ev.a["callee"].name != "__init__" or ev.a["callee"].cls is None or \
+                    ev.a["callee"].cls.name not in MODEL_CLASSES:
+                continue
+            init = ev.a["callee"]
+            site = anc[-1] if anc else ev
+            stored = {}
+            for k in init.cls.mro:
+                f = k.methods.get("__init__")
+                if f is None:
+                    continue
+                for node in ast.walk(f.node):
+                    if isinstance(node, ast.Assign) and isinstance(node.targets[0], ast.Attribute) and \
+                            ast.unparse(node.targets[0].value) == "self" and isinstance(node.value, ast.Name) and \
+                            node.value.id in f.params:
+                        stored[node.value.id] = node.targets[0].attr
+            for pname, fld in sorted(stored.items()):
+                av, fv = ev.a["args"].get(pname), ref.fields.get(fld)
+                if av is None or fv is None:
+                    continue
+                n += 1
+                same = av.refs == fv.refs and av.locs == fv.locs and \
+                    (av.const == fv.const or (not av.has_const and not fv.has_const))
+                ctx.check(same, "R2.6", "the model of an added arm gets the bandit's %s" % fld, ev.node, ev.fn,
+                          "constructed models hold %r, the model built by add_arm gets %r: an arm added later is "
+                          "regressed with another %s than its siblings [%s]" % (fv, av, fld, c.name),
+                          construct="%s(..., %s) in add_arm" % (init.cls.name, pname))
+    ctx.floor("R2.6", "constructor arguments of added-arm models compared", n, 9)
+
+
 def check(ctx):
+    ctx.rule("R2.6", "the model of an arm added later is built with the same hyper-parameters as the others")
     ctx.rule("R2.5", "a model's predict does not modify the query matrix shared by all arms")
     ctx.rule("R2.1", "shape safety for all (d, m) in {1, >1}^2; no two-sided broadcast; predict returns (m,)")
     ctx.rule("R2.2", "initial model: A = lambda*I, A_inv = I/lambda, X'y = 0, beta = 0")
@@ -459,3 +516,4 @@ def check(ctx):
     check_incremental(ctx)
     check_selectors(ctx, "R2.4")
     check_query_unmodified(ctx)
+    check_added_arm_model(ctx)
